@@ -364,7 +364,6 @@ func (s *socket) MaybeUpgrade(transport transports.Transport) {
 	check = func() {
 		utils.VerifYield("upgrade.check.tick", s.id)
 		if transports.POLLING == s.Transport().Name() && s.Transport().Writable() {
-			utils.VerifYield("upgrade.check.writable", s.id)
 			socket_log.Debug("writing a noop packet to polling for fast upgrade")
 			s.Transport().Send([]*packet.Packet{{Type: packet.NOOP}})
 		}
